@@ -264,6 +264,9 @@ def call_builtin(ev, name, args, kwargs, node):
         if isinstance(args[0], Obj) and isinstance(args[1], Const) and isinstance(args[1].value, str):
             o, n = args[0], args[1].value
             return Const(n in o.attrs or o.cls.find_method(n) is not None or o.cls.find_assign(n) is not None)
+        from .evalr import ExtV as _ExtV
+        if isinstance(args[0], _ExtV) and args[0].dotted == "numpy" and isinstance(args[1], Const) and args[1].value in ("trapezoid", "trapz"):
+            return TRUE     # the two spellings of the trapezoid rule are one function in the model (ext_attr): either branch of a version shim is the same
         return App("hasattr", (as_v(ev, args[0]), as_v(ev, args[1])))
     if name == "type":
         o = args[0]
